@@ -235,8 +235,19 @@ def one(res, case, start, end, overlap):
     sub.pop('se', None)
     tag = '%s:%s:%s' % (sup, body, 'unbounded' if L == INF else 'bounded')
     try:
-        out = template(body)(seq=seq, pstart=start, pend=end, psize=size,
-                             porphan=orphan, poverlap=overlap, prv0=0)
+        # the numbers reach the tag as integers or as one of the texts
+        # int() understands (padded, signed, other decimal digits)
+        from .c11 import SPELLINGS
+        c = SPELLINGS[(start + 2 * end + 3 * size + 5 * orphan +
+                       (0 if L == INF else L)) % len(SPELLINGS)]
+        vals = [start, end, size, orphan, overlap]
+        # one of the five parameters (which one rotates over the grid) is
+        # given in that spelling, the others as integers
+        j = (start + end + size + orphan + overlap) % 5
+        vals[j] = c(vals[j])
+        out = template(body)(seq=seq, pstart=vals[0], pend=vals[1],
+                             psize=vals[2], porphan=vals[3],
+                             poverlap=vals[4], prv0=0)
     except PullBudget:
         res.violate('bounded-pulls', 'unbounded-consumer:%s%s' % (
             tag, ':len' if log.len_calls else ''),
